@@ -64,6 +64,15 @@ STRENGTHENED = {
     "C15-m7": "missed at first (the C15 chain engine had no users); a small market whose users probe every gated instruction after each step, refusals judged against the group's cached pause",
     "C19-m7": "missed at first; the global fee wallet is moved without propagation and fees are collected towards the old and the new wallet",
     "C19-m8": "missed at first; a receiver tries to claim the account's rewards inside a receivership bracket",
+    "C02-m10": "missed at first (no account ever filled its sixteen slots); sixteen-slot saturation scenario: fifteen deposits and a pure debt, then a seventeenth bank by deposit and by borrow",
+    "C03-m9": "missed at first (the per-operation monitor judged deposits, withdrawals, borrows and repayments only); a classic liquidation is judged leg by leg inside each of its two banks, and the storms liquidate with an account that holds a small deposit in the debt bank",
+    "C04-m9": "missed at first by C04 (reduce-only collateral never met an e-mode entry there); the leveraged account's collateral bank is wound down and a further borrow probed",
+    "C05-m10": "missed at first; a liquidator that is solvent only thanks to e-mode takes on a debt in a bank without any e-mode configuration",
+    "C08-m9": "missed at first by C08 (C03 sees the unpaid repayment, C08 had no rule for it); a repayment that lowers a debt while nothing reaches the vault must carry the risk admin's signature, and a stranger repays a small account's whole debt on a flagged bank inside a receivership",
+    "C08-m10": "missed at first; frozen-account cells now include both transfer variants and every instruction presented with the other group and signed by its admin",
+    "C09-m9": "missed at first; collateral leaving an account in receivership must be priced strictly positive, and the oracle-fault scenario seizes without repaying while the price reads zero",
+    "C10-m9": "missed at first; a third of the receivership scenarios run over collateral whose bank carries a collateral-value cap far below the deposits",
+    "C10-m10": "missed at first (the foreign instructions of the shape alphabet all carried eight bytes or more); short instructions of a tolerated program before, inside and after the bracket",
     "V4-m2": "caught once every gated instruction (not only deposit) is probed right after the pause expiry",
 }
 def title(d):
